@@ -20,6 +20,7 @@ type Recorder struct {
 
 	lastAtropos hash.Event
 	curJump     int
+	maxDelivered map[idx.ValidatorID]int // highest sequence number delivered so far per creator (current epoch of the current instance)
 }
 
 func NewRecorder(w io.Writer) *Recorder {
@@ -45,6 +46,7 @@ func valsJSON(vs []ValW) [][2]int {
 
 func (r *Recorder) Reset(epoch idx.Epoch, vals []ValW, byz bool) {
 	r.Scen++
+	r.maxDelivered = map[idx.ValidatorID]int{}
 	r.emit(line{"op": "reset", "scen": r.Scen, "epoch": int(epoch), "vals": valsJSON(vals), "byz": byz})
 	r.Stats["scenarios"]++
 }
@@ -65,8 +67,32 @@ func (r *Recorder) blocksJSON(s *Scenario, blocks []BlockRec) []line {
 			ch = append(ch, int(c))
 		}
 		evs := make([]int, 0, len(b.Applied))
+		late := false
+		blockMax := map[idx.ValidatorID]int{}
 		for _, h := range b.Applied {
 			evs = append(evs, s.idOf(h))
+			if e, ok := s.ByHash[h]; ok {
+				if r.maxDelivered != nil && e.Sq <= r.maxDelivered[e.Cr] {
+					late = true // an event of a fork branch delivered after an earlier block delivered the same or a higher sequence number of its creator
+				}
+				if e.Sq > blockMax[e.Cr] {
+					blockMax[e.Cr] = e.Sq
+				}
+			}
+		}
+		if r.maxDelivered == nil {
+			r.maxDelivered = map[idx.ValidatorID]int{}
+		}
+		for cr, m := range blockMax {
+			if m > r.maxDelivered[cr] {
+				r.maxDelivered[cr] = m
+			}
+		}
+		if late {
+			r.Stats["blocks_delivering_an_older_fork_branch"]++
+		}
+		if b.Seal != nil {
+			r.maxDelivered = map[idx.ValidatorID]int{}
 		}
 		seal := [][2]int{}
 		if b.Seal != nil {
